@@ -363,6 +363,18 @@ theorem publish_noCommit (g : List SCmd) : ∀ (pubs : List Cmd) (head : Nat) (s
       · exact publish_noCommit g rest _ _ _ _ h'
       · exact h'
 
+theorem chain_parents {b : List Nat} {cs : Graph} (h : Chain b cs) :
+    ∀ c ∈ cs, c.parents = b ∨ ∃ y, c.parents = [y] := by
+  induction cs generalizing b with
+  | nil => intro c hc; cases hc
+  | cons x xs ih =>
+    intro c hc
+    rcases List.mem_cons.mp hc with rfl | hc
+    · exact Or.inl h.1
+    · rcases ih h.2 c hc with e | e
+      · exact Or.inr ⟨x.id, e⟩
+      · exact Or.inr e
+
 theorem reach_append {g : Graph} {a b : Nat} (h : Reach g a b) : ∀ (l : Graph), Reach (g ++ l) a b
   | [] => by simpa using h
   | c :: l => by
@@ -380,7 +392,8 @@ theorem action_spec {st : Store} (sink : List SinkEv) (ms pubs : List Cmd) (hs :
       st'.graph = st.graph ++ merges ++ new ∧ (∀ x ∈ merges, x.cmd.parents.length = 2) ∧ cmds new = pubs ∧
       new.getLast? = some last ∧ st'.heads = [last.cmd.id] ∧ st'.facts = last.st ∧
       st'.stamp = st.stamp + 1 ∧ StoreInv st' ∧
-      (∀ x ∈ st.heads, Reach (cmds st'.graph) x last.cmd.id)) := by
+      (∀ x ∈ st.heads, Reach (cmds st'.graph) x last.cmd.id) ∧
+      (∀ x ∈ new, x.cmd.parents.length = 1)) := by
   unfold action
   simp only
   cases hcol : collapse st.graph st.heads ms st.heads.length with
@@ -421,7 +434,11 @@ theorem action_spec {st : Store} (sink : List SinkEv) (ms pubs : List Cmd) (hs :
         | some last =>
           right
           simp only
-          refine ⟨_, merges, new, last, evs, rfl, hnc, rfl, hmerges, by simpa using r3, hl, rfl, ?_, rfl, ?_, ?_⟩
+          refine ⟨_, merges, new, last, evs, rfl, hnc, rfl, hmerges, by simpa using r3, hl, rfl, ?_, rfl, ?_, ?_, ?_⟩
+          rotate_left 3
+          · intro x hx
+            have := chain_parents r2 x.cmd (by simp only [cmds, List.mem_map]; exact ⟨x, hx, rfl⟩)
+            rcases this with e | ⟨y, e⟩ <;> simp [e]
           · exact (r6 last hl).symm
           · refine ⟨r1, ?_, by simp, ?_⟩
             · intro i
